@@ -254,6 +254,10 @@ def tr_expr(e, ctx):
         if ta == tb == 'kpats':
             return f'({a} ++ {b})', 'kpats'
         if ta == tb == 'N':
+            if a == '0%N':
+                return b, 'N'
+            if b == '0%N':
+                return a, 'N'
             return f'({a} + {b})%N', 'N'
         die(w, e, f'+ on {ta}, {tb}')
     if isinstance(e, ast.Subscript):
@@ -322,8 +326,50 @@ def star_args(args, ctx):
     return out
 
 
+# parameter names of callees that are not translated themselves (for keyword arguments)
+SIGS = {'ConvertedAxiom': ['kind', 'pattern'], 'ExecutionProofExp': ['language_semantics', 'init_config'],
+        'dynamic_inst': ['pf', 'delta'], 'load_axiom': ['axiom_term'], 'Symbol': ['name'], 'functional': None,
+        'instantiate': ['delta'], 'resolve_to_ksymbol': ['symbol'], 'get_symbol': ['name'], 'get_sort': ['name']}
+
+
+def positional(e, ctx):
+    """a call with keyword arguments = the call with the same values bound positionally (evaluation order of the
+    arguments is the textual order in both cases; the values here are either pure or bound in that order)"""
+    if not e.keywords:
+        return e
+    fn = e.func.attr if isinstance(e.func, ast.Attribute) else (e.func.id if isinstance(e.func, ast.Name) else None)
+    names = None
+    if fn in BYNAME:
+        f = BYNAME[fn]
+        names = [p for p, _ in f.params]
+        if not (dotted(e.func.value) == f.cls if isinstance(e.func, ast.Attribute) else False) and names and names[0] == 'self':
+            names = names[1:]
+    elif fn in SIGS and SIGS[fn]:
+        names = SIGS[fn]
+    if names is None or any(k.arg is None for k in e.keywords):
+        return e
+    slots = list(e.args) + [None] * (len(names) - len(e.args))
+    if len(e.args) > len(names):
+        die(ctx.where, e, 'too many arguments')
+    order_ok = True
+    for k in e.keywords:
+        if k.arg not in names or slots[names.index(k.arg)] is not None:
+            die(ctx.where, e, f'keyword argument {k.arg}')
+        slots[names.index(k.arg)] = k.value
+    if None in slots:
+        die(ctx.where, e, 'missing argument')
+    # keywords written in another order than the parameters are evaluated in the written order: only accept that
+    # when the reordered values are plain names / attribute chains / constants (no effect, no partiality)
+    written = list(e.args) + [k.value for k in e.keywords]
+    if written != slots and not all(isinstance(x, (ast.Name, ast.Constant)) or dotted(x) for x in written):
+        die(ctx.where, e, 'keyword arguments in a different order with non-trivial values')
+    return ast.copy_location(ast.Call(func=e.func, args=slots, keywords=[]), e)
+
+
 def tr_call(e, ctx):
     w = ctx.where
+    if not (dotted(e.func) in ('MetaVar', 'proof.ProofExp')):
+        e = positional(e, ctx)
     name = dotted(e.func)
     if e.keywords and name not in ('MetaVar', 'proof.ProofExp'):
         die(w, e, 'keyword arguments')
@@ -986,6 +1032,114 @@ def tr_match(s, ctx, cont):
 
 # ------------------------------------------------------------------------------------------------ driver
 
+def component_helpers(cls, tree, where):
+    """A private component object built in __init__ (`self.F = _K(args)`, never reassigned) whose fields are only set in
+    _K.__init__: a call `self.F.m(args)` is the body of _K.m with `self.a` read as the constructor argument (fields bound
+    to a parameter and never rebound) or, for a container field exposed by a read-only property `P` of the owner
+    (`return self.F.a`), as `self.P`.  Returns (set of F, helpers for the inliner)."""
+    import copy
+    classes = {n.name: n for n in tree.body if isinstance(n, ast.ClassDef)}
+    init = next((m for m in cls.body if isinstance(m, ast.FunctionDef) and m.name == '__init__'), None)
+    if init is None:
+        return set(), {}
+    stores = {}
+    for m in cls.body:
+        for n in ast.walk(m):
+            if isinstance(n, ast.Attribute) and isinstance(n.ctx, ast.Store) and isinstance(n.value, ast.Name) and n.value.id == 'self':
+                stores[n.attr] = stores.get(n.attr, 0) + 1
+    props = {}
+    for m in cls.body:
+        if isinstance(m, ast.FunctionDef) and [dotted(d) for d in m.decorator_list] == ['property']:
+            body = [st for st in m.body if not (isinstance(st, ast.Expr) and isinstance(st.value, ast.Constant))]
+            if len(body) == 1 and isinstance(body[0], ast.Return):
+                d = dotted(body[0].value) if body[0].value is not None else None
+                if d and d.count('.') == 2 and d.startswith('self.'):
+                    props[tuple(d.split('.')[1:])] = m.name
+    comps, helpers = set(), {}
+    for st in init.body:
+        if not (isinstance(st, ast.Assign) and len(st.targets) == 1 and dotted(st.targets[0]) and dotted(st.targets[0]).startswith('self.')
+                and dotted(st.targets[0]).count('.') == 1 and isinstance(st.value, ast.Call) and isinstance(st.value.func, ast.Name)):
+            continue
+        F, K = st.targets[0].attr, classes.get(st.value.func.id)
+        if K is None or not K.name.startswith('_') or stores.get(F, 0) != 1:
+            continue
+        kinit = next((m for m in K.body if isinstance(m, ast.FunctionDef) and m.name == '__init__'), None)
+        if kinit is None or kinit.args.vararg or kinit.args.kwarg or kinit.args.kwonlyargs:
+            continue
+        pnames = [a.arg for a in kinit.args.args][1:]
+        defaults = dict(zip(pnames[len(pnames) - len(kinit.args.defaults):], kinit.args.defaults))
+        bound = dict(zip(pnames, st.value.args))
+        for k in st.value.keywords:
+            if k.arg is None or k.arg not in pnames or k.arg in bound:
+                die(where, st, 'component constructor arguments')
+            bound[k.arg] = k.value
+        for pn in pnames:
+            if pn not in bound:
+                if pn not in defaults:
+                    die(where, st, 'component constructor arguments')
+                bound[pn] = defaults[pn]
+        if not all(isinstance(x, ast.Constant) or (dotted(x) or '').startswith('self.') for x in bound.values()):
+            continue
+        fields, ok = {}, True
+        for st2 in kinit.body:
+            if isinstance(st2, ast.Expr) and isinstance(st2.value, ast.Constant):
+                continue
+            tgt = st2.targets[0] if isinstance(st2, ast.Assign) and len(st2.targets) == 1 else (st2.target if isinstance(st2, ast.AnnAssign) else None)
+            val = getattr(st2, 'value', None)
+            if tgt is None or not (isinstance(tgt, ast.Attribute) and isinstance(tgt.value, ast.Name) and tgt.value.id == 'self') or val is None:
+                ok = False
+                break
+            if isinstance(val, ast.Name) and val.id in bound:
+                fields[tgt.attr] = ('arg', bound[val.id])
+            elif isinstance(val, ast.Dict) and not val.keys:
+                fields[tgt.attr] = ('container', None)
+            else:
+                ok = False
+                break
+        if not ok:
+            continue
+        rebound = set()
+        for m in K.body:
+            if isinstance(m, ast.FunctionDef) and m.name != '__init__':
+                for n in ast.walk(m):
+                    if isinstance(n, ast.Attribute) and isinstance(n.ctx, ast.Store) and isinstance(n.value, ast.Name) and n.value.id == 'self':
+                        rebound.add(n.attr)
+        comps.add(F)
+        for m in K.body:
+            if not isinstance(m, ast.FunctionDef) or m.name == '__init__' or m.decorator_list:
+                continue
+
+            class Sub(ast.NodeTransformer):
+                def visit_Attribute(self, n):
+                    if isinstance(n.value, ast.Name) and n.value.id == 'self':
+                        kind = fields.get(n.attr)
+                        if kind and kind[0] == 'arg' and n.attr not in rebound and isinstance(n.ctx, ast.Load):
+                            return copy.deepcopy(kind[1])
+                        if kind and kind[0] == 'container' and n.attr not in rebound and (F, n.attr) in props:
+                            return ast.copy_location(ast.Attribute(value=ast.Name(id='self', ctx=ast.Load()), attr=props[(F, n.attr)], ctx=n.ctx), n)
+                        return ast.copy_location(ast.Attribute(value=ast.Attribute(value=ast.Name(id='self', ctx=ast.Load()), attr=F, ctx=ast.Load()), attr=n.attr, ctx=n.ctx), n)
+                    return self.generic_visit(n)
+            m2 = ast.fix_missing_locations(Sub().visit(copy.deepcopy(m)))
+            m2.name = f'_comp_{F}_{m.name}'
+            helpers[('self', m2.name)] = m2
+    return comps, helpers
+
+
+class CompCalls(ast.NodeTransformer):
+    """`self.F.m(args)` -> `self._comp_F_m(args)` for a component F"""
+
+    def __init__(self, comps):
+        self.comps = comps
+
+    def visit_Call(self, n):
+        self.generic_visit(n)
+        f = n.func
+        if isinstance(f, ast.Attribute) and isinstance(f.value, ast.Attribute) and isinstance(f.value.value, ast.Name) \
+                and f.value.value.id == 'self' and f.value.attr in self.comps:
+            n.func = ast.copy_location(ast.Attribute(value=ast.Name(id='self', ctx=ast.Load()), attr=f'_comp_{f.value.attr}_{f.attr}', ctx=ast.Load()), f)
+        return n
+
+
 def module_consts(tree):
     """module-level names bound exactly once, to a str/int literal, and never assigned anywhere else in the module"""
     cands, count = {}, {}
@@ -1050,7 +1204,9 @@ def generate(repo):
                     helpers[('self', x.name)] = x
         import copy
         counter = [0]
-        stmts = copy.deepcopy(m.body)
+        comps, chelpers = component_helpers(cls, trees[f.file], f'{f.cls}.{f.name}')
+        helpers.update(chelpers)
+        stmts = [ast.fix_missing_locations(CompCalls(comps).visit(st)) for st in copy.deepcopy(m.body)] if comps else copy.deepcopy(m.body)
         for _round in range(6):                   # helpers may call helpers
             before = ast.dump(ast.Module(body=stmts, type_ignores=[]))
             stmts = inline_helpers(stmts, helpers, f'{f.cls}.{f.name}', counter)
